@@ -72,6 +72,11 @@ type Operation struct {
 	// The commit index at the time the operation was submitted. Only applicable to
 	// linearizable and lease-based read-only operations.
 	readIndex uint64
+
+	// The number of rounds of heartbeats that had been started when the operation was
+	// submitted. Only a round that was started afterwards verifies leadership for it.
+	// Only applicable to linearizable read-only operations.
+	round uint64
 }
 
 type operationManager struct {
@@ -86,6 +91,9 @@ type operationManager struct {
 
 	// The lease for lease-based reads.
 	leaderLease *lease
+
+	// The number of rounds of heartbeats that have been started.
+	rounds uint64
 }
 
 func newOperationManager(leaseDuration time.Duration) *operationManager {
@@ -100,6 +108,19 @@ func newOperationManager(leaseDuration time.Duration) *operationManager {
 func (r *operationManager) markAsVerified() {
 	for operation := range r.pendingReadOnly {
 		operation.quorumVerified = true
+	}
+	r.shouldVerifyQuorum = true
+}
+
+// markAsVerifiedBy marks the read-only operations that were submitted before the round of
+// heartbeats with the provided number was started as verified. Replies to requests that were
+// sent before an operation was submitted say nothing about leadership at the time of its
+// submission.
+func (r *operationManager) markAsVerifiedBy(round uint64) {
+	for operation := range r.pendingReadOnly {
+		if operation.round < round {
+			operation.quorumVerified = true
+		}
 	}
 	r.shouldVerifyQuorum = true
 }
